@@ -1,22 +1,39 @@
 import CvxVerif.Gen.LapackDriver
+import CvxVerif.Gen.LapackFoot
 import CvxVerif.Model.Proto
 open CvxVerif CvxVerif.CWrap CvxVerif.Gen.Lapack CvxVerif.Proto
 
-/-- `lapack <routine> k=v ...` (booleans as 0/1) -/
+def parseKv (kvs : List String) : (String → Int) :=
+  let tbl : List (String × Int) := kvs.filterMap fun kv =>
+    match kv.splitOn "=" with
+    | [k, v] => v.toInt?.map fun n => (k, n)
+    | _ => none
+  fun k => match tbl.find? (·.1 == k) with | some p => p.2 | none => 0
+
+/-- `lapack <routine> k=v ...` (booleans as 0/1): outcome of the translated checks;
+    `foot <routine> k=v ...`: when the checks accept, whether the footprint specification holds of the call they pass on -/
 def stepLine (u : Unit) (line : String) : Unit × String :=
   match words line with
   | "lapack" :: name :: kvs =>
-    let tbl : List (String × Int) := kvs.filterMap fun kv =>
-      match kv.splitOn "=" with
-      | [k, v] => v.toInt?.map fun n => (k, n)
-      | _ => none
-    let kv := fun k => match tbl.find? (·.1 == k) with | some p => p.2 | none => 0
+    let kv := parseKv kvs
     let kb := fun k => kv k != 0
     match runLapack name kv kb with
     | none => (u, "no-routine")
     | some (.reject c) => (u, "reject " ++ c)
     | some .none => (u, "none")
     | some (.call vals) => (u, "call " ++ " ".intercalate ((callNamesL name).zip vals |>.map fun p => s!"{p.1}={p.2}"))
+  | "foot" :: name :: kvs =>
+    let kv := parseKv kvs
+    let kb := fun k => kv k != 0
+    match runLapack name kv kb with
+    | some (.call vals) =>
+      let fin := (callNamesL name).zip vals
+      let gv := fun k => match fin.find? (·.1 == k) with | some p => p.2 | none => 0
+      match footLapack name kv kb gv with
+      | some b => (u, s!"foot {b}")
+      | none => (u, "no-foot")
+    | some _ => (u, "not-accepted")
+    | none => (u, "no-routine")
   | _ => (u, "bad-op")
 
 def main : IO Unit := loop stepLine ()
